@@ -197,7 +197,9 @@ def psig(prog, ctl):
 
 # ---- (a) exact mode, every outcome string -----------------------------------------------------------------------------------
 
-def check_exact(case, acc):
+def check_exact(case, acc, shared=None):
+    """shared: optional dict holding ONE Circuit object (and backend) reused across calls of this function for the same program with
+    different initial statevectors - history: whatever the object recorded in an earlier simulation must not leak into the next."""
     from tangelo.linq import get_backend, generate_applied_gates
     prog, n, ctl = case["prog"], case["n"], case.get("ctl")
     init = dense_state(n) if case.get("init") == "dense" else None
@@ -208,8 +210,13 @@ def check_exact(case, acc):
     def bad(site, kind, detail):
         acc.violation(f"exact/{site}/{kind}/{sg}", case, detail, group=f"exact/{site}/{kind}")
 
-    circ = mk_circ(prog, n, ctl)
-    be = get_backend("cirq")
+    if shared is not None:
+        if "circ" not in shared:
+            shared["circ"], shared["be"] = mk_circ(prog, n, ctl), get_backend("cirq")
+        circ, be = shared["circ"], shared["be"]
+    else:
+        circ = mk_circ(prog, n, ctl)
+        be = get_backend("cirq")
     tot, mix = 0.0, {}
     for br in res:
         b = br["outs"]
@@ -370,6 +377,67 @@ def check_cmeasure_shots(case, acc):
     acc.states += n_exec
     if len(res) > 1:
         acc.nt(("cmeasure-shots", prog, ctl, shots))
+
+
+def check_cmeasure_shots_dmr(case, acc):
+    """CMEASURE programs with a desired outcome string AND finite shots: every shot (not only the first) must be conditioned on
+    the requested outcomes - no unconditioned measurement draw, the state handed to each final sampler is the reference branch
+    state, every key of all_frequencies starts with the requested string, the recorded probability is the branch probability."""
+    from tangelo.linq import get_backend
+    import tangelo.linq.target.backend as BK
+    prog, n, ctl, shots, b = case["prog"], case["n"], case.get("ctl"), case["n_shots"], case["dmr"]
+    sg = psig(prog, ctl)
+    res, dead = branches(prog, n, ctl)
+    br = {x["outs"]: x for x in res}.get(b)
+    if br is None:
+        return
+
+    def bad(kind, detail):
+        acc.violation(f"cmeasure-shots-dmr/{kind}/{sg}", case, detail, group=f"cmeasure-shots-dmr/{kind}")
+
+    holder = {}
+
+    def run(ch):
+        circ = mk_circ(prog, n, ctl)
+        be = get_backend("cirq", n_shots=shots)
+        be.cirq = seams.CirqProxy(ch)
+        with seams.patched(BK, "np", seams.NumpyProxy(ch, 2)):
+            fr, _ = be.simulate(circ, desired_meas_result=b)
+        holder["circ"] = circ
+        return ({k: float(v) for k, v in fr.items()}, dict(be.all_frequencies))
+
+    n_exec = 0
+    try:
+        for choices, trace, infos, (fr, allf) in choicetree.explore(run, max_exec=2000):
+            n_exec += 1
+            acc.ev()
+            acc.transitions += len(trace)
+            labs = [t[2] for t in trace]
+            if "np.random.random" in labs:
+                bad("unconditioned-measurement-draw-in-a-conditioned-run", {"draws": labs, "shots": shots})
+                break
+            finals = [i for t, i in zip(trace, infos) if t[2] == "sample_state_vector"]
+            if len(finals) != shots:
+                bad("draw-structure", {"draws": labs})
+                break
+            if any(SV.dist_up_to_phase(np.asarray(i["state"]), br["psi"]) > TOL for i in finals):
+                bad("state-handed-to-final-sampler-is-not-the-requested-branch", {"b": b})
+                break
+            if any(not k.startswith(b) for k in allf) or abs(sum(allf.values()) - 1) > 1e-12:
+                bad("all_frequencies-not-conditioned", {"b": b, "all_frequencies": allf})
+                break
+            pr = holder["circ"].success_probabilities.get(b)
+            if pr is None or abs(pr - br["p"]) > TOL:
+                bad("success-probability", {"b": b, "recorded": pr, "ref": br["p"]})
+                break
+            acc.out(("cdmr", tuple(sorted(allf))))
+    except Exception as e:
+        if isinstance(e, (seams.UnownedRandomness, choicetree.ReplayDivergence)):
+            raise
+        bad("exception", {"b": b, "err": repr(e)[:300]})
+    acc.states += max(1, n_exec)
+    if br["p"] < 1 - 1e-9:
+        acc.nt(("cmeasure-shots-dmr", prog, ctl, shots, b))
 
 
 def weight_of(trace, infos):
@@ -693,12 +761,14 @@ def run_shard(sh):
         for i, prog in enumerate(progs):
             if i % NSH != sh["part"]:
                 continue
+            shared = {}          # the same Circuit / backend objects serve both initial states of this program
             for init in (None, "dense"):
                 if init == "dense" and (i // NSH) % 3:
                     continue
                 acc.states += 1
                 acc.transitions += len(prog)
-                check_exact({"kind": "exact", "prog": prog, "n": 2, "init": init}, acc)
+                check_exact({"kind": "exact", "prog": prog, "n": 2, "init": init, "shared_object_history": init == "dense"}, acc,
+                            shared=shared)
         if sh["part"] == 0:
             acc.sample({"kind": "exact", "prog": progs[len(progs) // 2], "n": 2}, cap=1)
     elif k == "exact_ctl":
@@ -747,6 +817,10 @@ def run_shard(sh):
             check_cmeasure_shots({"kind": "cshots", "prog": prog, "n": 2, "n_shots": 1, "K": K1, "max_exec": 20000}, acc)
             if len(prog) <= 3 and m <= 3:
                 check_cmeasure_shots({"kind": "cshots", "prog": prog, "n": 2, "n_shots": 2, "K": 2, "max_exec": 20000}, acc)
+            # a requested outcome string together with finite shots: every branch of the program, 1 and 2 shots
+            for brx in branches(prog, 2, None)[0]:
+                for shots in (1, 2):
+                    check_cmeasure_shots_dmr({"kind": "cshots_dmr", "prog": prog, "n": 2, "n_shots": shots, "dmr": brx["outs"]}, acc)
         if sh["part"] == 0:
             acc.sample({"kind": "cshots", "prog": progs[11], "n": 2, "n_shots": 1, "K": 8}, cap=1)
     if k in ("mshots", "cshots") and tier == "quick" and sh["part"] == 0:
@@ -764,13 +838,21 @@ def replay_case(case):
     acc = Acc()
     k = case.get("kind")
     if k == "exact":
-        check_exact(case, acc)
+        if case.get("shared_object_history"):
+            # replay the history: the same objects were first used from |0..0>
+            shared = {}
+            check_exact(dict(case, init=None, shared_object_history=False), Acc(), shared=shared)
+            check_exact(case, acc, shared=shared)
+        else:
+            check_exact(case, acc)
     elif k == "mshots":
         check_measure_shots(case, acc)
     elif k == "cshots":
         check_cmeasure_shots(case, acc)
     elif k == "mshots_dmr":
         check_measure_shots_dmr(case, acc)
+    elif k == "cshots_dmr":
+        check_cmeasure_shots_dmr(case, acc)
     elif k == "wide":
         check_wide(case, acc)
     return acc
